@@ -1,15 +1,34 @@
 # Per-property check table used by ./check. quick/thorough override shards/checks/env.
-def e1(func, profile, qchecks=24, qshards=8, tchecks=480, tshards=16, qblocks=100, tblocks=250, **kw):
+def e1(func, profile, qchecks=192, qshards=16, tchecks=3200, tshards=16, qblocks=100, tblocks=200, **kw):
     d = dict(func=func, profile=profile,
-             quick=dict(checks=qchecks, shards=qshards, timeout=900, env={"VERIF_BLOCKS_PCT": qblocks}),
-             thorough=dict(checks=tchecks, shards=tshards, timeout=6000, shrinktime="300s", env={"VERIF_BLOCKS_PCT": tblocks}))
+             quick=dict(checks=qchecks, shards=qshards, timeout=1200, env={"VERIF_BLOCKS_PCT": qblocks}),
+             thorough=dict(checks=tchecks, shards=tshards, timeout=7000, shrinktime="300s", env={"VERIF_BLOCKS_PCT": tblocks}))
     d.update(kw)
     return d
 
+E1_RULE = "rapid-generated multi-block histories of signed txs executed on the real ElysApp through FinalizeBlock/Commit (E1); distinct by hash of the tx sequence; non-trivial = "
+E1_ASSUME = ["single-chain behaviour; IBC/ICS provider packets, band callbacks and upgrade handlers are not generated",
+             "worlds have 2-3 pools over uusdc/uatom/uelys/uusdt, 5 users, a feeder and a bot; histories are bounded (<= ~100 blocks, <= 6 txs per block)"]
+
 CHECKS = {
-    "C01": dict(
-        tests=[e1("TestC01", "amm-mixed")],
-        rule="rapid-generated multi-block histories of signed txs on the real app (E1); non-trivial = history with amm writers AND perpetual/leveragelp writers on pools and >=10 successful pool-mutating txs; distinct by hash of the tx sequence",
-        assumptions=["single-chain behaviour; IBC/ICS packets not generated", "harness-known third-party sends are the only out-of-protocol donations"],
-    ),
+    "C01": dict(tests=[e1("TestC01", "amm-mixed")], assumptions=E1_ASSUME + ["harness-known third-party sends are the only out-of-protocol donations"],
+                rule=E1_RULE + "amm writers AND perpetual/leveragelp writers on pools and >=10 successful pool-mutating txs"),
+    "C02": dict(tests=[e1("TestC02", "shares")], assumptions=E1_ASSUME,
+                rule=E1_RULE + ">=1 join, >=1 exit and >=1 leveragelp open/close, all successful"),
+    "C06": dict(tests=[e1("TestC06", "lending")], assumptions=E1_ASSUME,
+                rule=E1_RULE + ">=1 repay (close / forced close) after >=1h of accrual and >=1 bond/unbond while a loan is outstanding"),
+    "C08": dict(tests=[e1("TestC08", "leveragelp")], assumptions=E1_ASSUME,
+                rule=E1_RULE + ">=1 forced close, >=1 partial close and >=1 consolidating open"),
+    "C09": dict(tests=[e1("TestC09", "perpetual")], assumptions=E1_ASSUME,
+                rule=E1_RULE + "long and short MTPs coexisting across a >=1h gap (interest/funding settlement) and >=1 partial close"),
+    "C11": dict(tests=[e1("TestC11", "accounted")], assumptions=E1_ASSUME + ["EnableTakeProfitCustodyLiabilities stays false (default), the configuration in which the statement's formula is the code's formula"],
+                rule=E1_RULE + "amm writers and perpetual writers on the same pool incl. >=1 block whose last pool writer was a perpetual handler"),
+    "C12": dict(tests=[e1("TestC12", "commitments")], assumptions=E1_ASSUME,
+                rule=E1_RULE + ">=1 successful uncommit-type op after a commit of the same denom and >=1 withdrawal rejected inside the 1h lock window"),
+    "C13": dict(tests=[e1("TestC13", "rewards")], assumptions=E1_ASSUME,
+                rule=E1_RULE + "revenue collected in >=3 blocks, >=1 deposit and >=1 successful claim"),
+    "C15": dict(tests=[e1("TestC15", "everything")], assumptions=E1_ASSUME,
+                rule=E1_RULE + ">=30 successful txs from >=5 modules and >=1 gap >= 1 day (epoch boundary)"),
+    "C18": dict(tests=[e1("TestC18", "faults")], assumptions=E1_ASSUME + ["parameters are drawn only from what each module's Validate/ValidateBasic admits"],
+                rule=E1_RULE + ">=1 block processed while a listed asset had no live price, >=1 gap >= 1 day and >=1 leveraged position opened"),
 }
